@@ -66,8 +66,8 @@ def deviations(ctx):
     jobs.append((dict(module="Sandbox", cfg=(scfg % '{"TruncatedRead"}').replace("ExecOnlyUnderFilter", "WholeFileEnforced ExecOnlyUnderFilter"), name="dev_sandbox_trunc", expect_violation=True), None))
     import c13
     for dev, inv in (('{"SortNamesInPlace"}', ("NoConflict", "InputUnchanged")), ('{"PackageCache"}', ("NoConflict", "InputUnchanged")),
-                     ('{"FlagStringMapOrder"}', "FlagStringDeterministic"), ('{"ActionNamesInverted"}', "ActionStringDeterministic")):
-        j = c13.conc_job("dev_conc_" + dev.strip('{}"'), "names", '<<"Assemble", "FlagString">>')
+                     ('{"FlagStringMapOrder"}', "FlagStringDeterministic"), ('{"ActionNamesInverted"}', "ActionStringDeterministic"), ('{"SharedTextBytes"}', ("NoConflict", "InputUnchanged"))):
+        j = c13.conc_job("dev_conc_" + dev.strip('{}"'), "names", '<<"Assemble", "FlagString", "MarshalText">>')
         j["cfg"] = j["cfg"].replace("Dev = {}", "Dev = " + dev)
         j["expect_violation"] = True
         jobs.append((j, inv))
